@@ -7,21 +7,21 @@
    FULL STATEMENT: the invariant (current is kept, no revision kept twice, mounted = kept, linked revision = current
    exactly when active, a removed snap leaves nothing) holds after every sequence of install / refresh / revert / enable /
    disable / remove operations with and without injected failures, on several snaps.
-   PROVED: the invariant `wf` implies the C11 statement (C11_invariant_content); it holds of the empty state; EVERY
-   completed or refused operation preserves it — install, refresh to a new and to a kept revision (link + garbage
-   collection), revert, enable, disable, remove, remove --revision, snap set, refresh inhibition, retain changes
-   (C11_completed_ops_preserve) — and so does every failed and undone install / revert, and every failed and undone refresh
-   at ANY failure position (also after discards), outside the config-from-nothing class of C10; by induction over
-   histories of such steps every reachable state is consistent (C11_consistent_invariant_partial).
-   MISSING in Coq (monitored on the implementation only): failures inside remove / remove --revision / enable / disable,
-   failed operations in the config-from-nothing class (they only differ in the configuration value, which the invariant
-   does not constrain for an installed snap, but this is not proved), and the frame condition for other snaps (the driver
-   plays one snap).  Side conditions of a step (`covered`): retain >= 2 (configuration accepts 2..20) and an enable carries
-   the current revision in its snap-setup (Enable builds it from CurrentSideInfo). *)
+   PROVED (C11_consistent_invariant): for EVERY history of operations on the snap — install, refresh (from the store or a local
+   file, to a new or a kept revision), revert, enable, disable, remove, remove --revision, snap set, refresh inhibition,
+   changes of refresh.retain — each of them completed, refused, or FAILED AT AN ARBITRARY TASK and undone, played from the
+   empty state, the state after every step satisfies `wf`, which implies the C11 statement (C11_invariant_content).
+   The recorded C10 classes (fail-after-discard, config-from-nothing) do not break the invariant: they are covered.
+   The only side condition is refresh.retain >= 2, the range the configuration accepts (with retain 1 a failure after the
+   discard of the old current revision would leave current not kept; configcore rejects such values).
+   `step o k retain inuse s`: k = 0 the change runs to its end, k = S j its first j tasks complete, the next one fails,
+   the j tasks are undone in reverse.  NOT covered: several snaps and the frame condition between them (the model and the
+   driver play one snap); partial effects of the failing task itself (the failing task has no effect in the model; the
+   handlers' own cleanup on error is not modelled). *)
 From Coq Require Import List NArith ZArith Bool.
 Import ListNotations.
 Require Import V.models.SnapSeq V.proofs.SnapSeqProofs V.proofs.SnapSeqProofs2 V.proofs.SnapSeqProofs3 V.proofs.SnapSeqProofs4
-               V.proofs.SnapSeqProofs5 V.proofs.SnapSeqProofs6 V.proofs.SnapSeqProofs7.
+               V.proofs.SnapSeqProofs5 V.proofs.SnapSeqProofs6 V.proofs.SnapSeqProofs7 V.proofs.SnapSeqProofs8.
 Open Scope N_scope.
 
 Theorem C11_invariant_content : forall s : st, wf s ->
@@ -37,10 +37,10 @@ Print Assumptions C11_empty_wf.
 
 (* every operation that completes (k = 0) or is refused preserves the invariant *)
 Theorem C11_completed_ops_preserve : forall (o : op) (retain : Z) (inuse : N -> bool) (s : st),
-  wf s -> (2 <= retain)%Z -> (okind o = OEnable -> orev o = cur s) -> wf (step o 0 retain inuse s).
+  wf s -> (2 <= retain)%Z -> wf (step o 0 retain inuse s).
 Proof.
-  intros o retain inuse s W R EN.
-  apply (step_wf (mkH o 0 retain inuse) s W). split; [exact R|split; [exact EN|left; reflexivity]].
+  intros o retain inuse s W R.
+  apply (step_wf (mkH o 0 retain inuse) s W). split; [exact R|left; reflexivity].
 Qed.
 Print Assumptions C11_completed_ops_preserve.
 
@@ -51,11 +51,17 @@ Theorem C11_failed_refresh_preserves : forall (s : st) (o : op) (j : nat) (retai
 Proof. exact failed_refresh_wf. Qed.
 Print Assumptions C11_failed_refresh_preserves.
 
-(* induction over histories: hplay plays a list of steps (operation, failure position, retain, in-use answer);
-   all_covered asks of each step, in the state it is taken from, the side conditions named above *)
-Theorem C11_consistent_invariant_partial : forall (hs : list hstep), all_covered hs empty -> wf (hplay hs empty).
-Proof. intros hs C. apply history_wf; [exact wf_empty|exact C]. Qed.
-Print Assumptions C11_consistent_invariant_partial.
+(* any single step, whatever its kind and whatever its failure position *)
+Theorem C11_every_step_preserves : forall (o : op) (k : nat) (retain : Z) (inuse : N -> bool) (s : st),
+  wf s -> (2 <= retain)%Z -> wf (step o k retain inuse s).
+Proof. exact step_wf_all. Qed.
+Print Assumptions C11_every_step_preserves.
+
+(* induction over histories: hplay plays a list of steps (operation, failure position, retain, in-use answer) *)
+Theorem C11_consistent_invariant : forall (hs : list hstep),
+  (forall h, In h hs -> (2 <= h_retain h)%Z) -> wf (hplay hs empty).
+Proof. intros hs R. apply history_wf_all; [exact wf_empty|exact R]. Qed.
+Print Assumptions C11_consistent_invariant.
 
 (* non-vacuity: install 1, refresh to 2, refresh to 3 failing after the last task (revision 1 is already garbage-collected),
    refresh to 3, revert to 2, disable, remove --revision 2 (the current one): kept [3], current 3 *)
